@@ -11,6 +11,9 @@ RTN32 = fp.IEEEContext(8, 32, fp.RM.RTN)
 RAZ8 = fp.IEEEContext(4, 8, fp.RM.RAZ)
 FX4 = fp.MPFixedContext(-5, fp.RM.RNE)
 MP5 = fp.MPFloatContext(5, fp.RM.RTO)
+FXF = fp.MPFixedContext(-30, fp.RM.RNE)     # a fixed-point grid finer than binary16/binary32 digits near 1
+MP40 = fp.MPFloatContext(40, fp.RM.RNE)
+FXM = fp.MPFixedContext(-20, fp.RM.RTZ)     # finer than binary16 digits near 1, coarser than binary32's
 K = 3
 HALF = 0.5
 
@@ -242,6 +245,59 @@ def via_prim(x: fp.Real) -> tuple[fp.Real, fp.Real]:
     return (b, c)
 
 
+@fp.fpy
+def callee_fail(xs: list[fp.Real], i: fp.Real) -> fp.Real:
+    with fp.FP32:
+        y = xs[i] / 3          # IndexError when i is out of range
+    assert y < 50
+    return y
+
+
+@fp.fpy
+def calls_failing(xs: list[fp.Real], i: fp.Real) -> fp.Real:
+    # the failure happens *below* a call made by the program, under a context that is not the default
+    with RTZ16:
+        y = callee_fail(xs, i) + 1
+        with RTP16:
+            z = callee_fail(xs, i + 1) / 7
+    return y + z
+
+
+@fp.fpy_primitive
+def picky(x: fp.Real, ctx: fp.Context) -> fp.Real:
+    if x > 2:
+        raise ValueError('picky')
+    return helper_noctx(x, ctx=RTP16)
+
+
+@fp.fpy
+def via_picky(x: fp.Real) -> fp.Real:
+    with RAZ8:
+        y = picky(x) + 1
+    return y
+
+
+@fp.fpy
+def tenth(x: fp.Real) -> fp.Real:
+    # non-dyadic literals, rounded under whatever context the caller supplies
+    y = x * 0.1
+    return y + fp.rational(1, 3)
+
+
+@fp.fpy
+def tenth16(x: fp.Real) -> fp.Real:
+    with fp.FP16:
+        y = x * 0.1 + fp.rational(1, 3)
+    return y
+
+
+@fp.fpy
+def tenth32(x: fp.Real) -> fp.Real:
+    with fp.FP32:
+        y = x * 0.1 - fp.rational(1, 3)
+    return y
+
+
 def _make_scale(k):
     @fp.fpy
     def scale_by(x: fp.Real) -> fp.Real:
@@ -276,6 +332,11 @@ def shadowing(x: fp.Real, gain: fp.Real) -> fp.Real:
 
 
 SIG = {
+    'calls_failing': ['list2+', 'idx'],
+    'via_picky': ['num'],
+    'tenth': ['num'],
+    'tenth16': ['num'],
+    'tenth32': ['num'],
     'uses_closure': ['num'],
     'boosted': ['num'],
     'shadowing': ['num', 'num'],
@@ -305,6 +366,14 @@ SIG = {
     'helper_noctx': ['num'],
     'helper_ctx': ['num'],
 }
+
+# functions whose operations run (at least partly) under the context the *caller* supplies: the ones
+# for which "the same function under another context" is a different computation
+AMBIENT = ['tenth', 'helper_noctx', 'calls', 'alt_loop', 'ident', 'boosted', 'dot', 'sum_enum', 'early', 'nested',
+           'uses_closure', 'shadowing']
+
+# functions that raise for some of their catalogue arguments (the program fails mid-evaluation)
+FAILING = ['asserting', 'indexer', 'exact_or_fail', 'calls_failing', 'via_picky']
 
 # strategies that may be applied to each function (name -> list of (strategy, kwargs))
 DERIVABLE = {
